@@ -460,6 +460,7 @@ def run(chk):
     _endpos_rule(chk, prog, tu)
     _capscope_rule(chk, fn)
     _repeatempty_rule(chk, fn)
+    _capload_rule(chk, prog, tu)
     cfn = prog.need_func("peg_compile1", tu)
     chk.analysed(cfn)
     _restore_rule(chk, cfn, "C12-SCOPE", "grammar",
@@ -654,3 +655,53 @@ def _repeatempty_rule(chk, fn):
                           "rule then fails, although the empty match could be repeated - (at-least 2 (any \"a\")) on \"aab\" fails while "
                           "(between 2 3 (any \"a\")) succeeds" % cond.text()[:70])
     chk.floor(rule, 1, n)
+
+
+# what the success-path loader deliberately leaves as it is: tagged captures stay visible to later back-references
+CAPLOAD_KEEPT_LEAVES = {"tcap"}
+
+
+def _capload_rule(chk, prog, tu):
+    """cap_save records how far the three capture stores have grown (captures, tagged captures, accumulation scratch).
+    cap_load (failure) rewinds all of them; cap_load_keept (success of a combinator that replaces its sub-pattern's
+    captures by one value) rewinds everything except the tagged captures.  A field that is saved but not put back
+    leaves the sub-pattern's text in the scratch buffer: the enclosing accumulate sees it in addition to the
+    combinator's own result."""
+    rule = "C12-CAPLOAD"
+    chk.rule(rule, "cap_load puts back every field cap_save records; cap_load_keept every field but the tagged-capture count")
+    byname = {f.name: f for f in tu.funcs.values()}
+    sv, ld, lk = byname.get("cap_save"), byname.get("cap_load"), byname.get("cap_load_keept")
+    if sv is None or ld is None or lk is None:
+        raise AnalysisBroken("cap_save / cap_load / cap_load_keept not found")
+    saved = set(x.kids[0].field for x in sv.nodes if x.k == "asg" and x.kids[0].k == "mem" and x.kids[0].rec == "CapState")
+    if len(saved) < 3:
+        raise AnalysisBroken("cap_save: only %d saved fields found" % len(saved))
+
+    def restored(fn, seen=()):
+        out = set()
+        for x in fn.nodes:
+            if x.k == "asg" and x.kids[0].k == "mem" and x.kids[0].field == "count":
+                for y in x.kids[1].walk():
+                    if y.k == "mem" and y.rec == "CapState":
+                        out.add(y.field)
+            if x.k == "call" and x.callee in ("cap_load", "cap_load_keept") and x.callee not in seen and x.callee != fn.name:
+                out |= restored(byname[x.callee], seen + (fn.name,))
+        return out
+    for fn, want, what in ((ld, saved, "every saved field"), (lk, saved - CAPLOAD_KEEPT_LEAVES, "every saved field except the tag count")):
+        chk.analysed(fn)
+        got = restored(fn)
+        for f in sorted(want):
+            chk.instance(rule)
+            if f in got:
+                chk.ok(rule, "%s restores %s" % (fn.name, f))
+            else:
+                chk.violation(rule, "peg.c", fn.name, "not-restored:" + f, fn.loc,
+                              "cap_save records `%s` but %s does not put it back (it should restore %s): what the sub-pattern added "
+                              "there stays, and e.g. an accumulate around a group / replace / only-tags sees the inner text twice" % (f, fn.name, what))
+        extra = got - want
+        for f in sorted(extra):
+            chk.instance(rule)
+            chk.violation(rule, "peg.c", fn.name, "restores:" + f, fn.loc,
+                          "%s rewinds `%s`, which it is meant to keep: tagged captures made inside a successful group are lost to later "
+                          "back-references" % (fn.name, f))
+    chk.floor(rule, 5)
